@@ -98,7 +98,9 @@ def abstract(draw):
                 plug_gf=draw(st.sampled_from([False, False, True])),
                 # a discrete release whose configuration still carries a release frequency (left over from a
                 # continuous set-up); legacy files then say release_type: discrete or nothing at all
-                stale_freq=draw(st.sampled_from([0, 0, 1, 2])), v1_type=draw(st.sampled_from(["explicit", "omit"])))
+                stale_freq=draw(st.sampled_from([0, 0, 1, 2])), v1_type=draw(st.sampled_from(["explicit", "omit"])),
+                # legacy files may name the forcing file and the grid file in the gridforce or in the files section
+                v1_places=draw(st.sampled_from(["gg", "gg", "gf", "fg", "ff"])))
 
 
 def build_files(d, a):
@@ -127,7 +129,10 @@ def build_files(d, a):
     for n, cnt in enumerate(part):
         pth = d / f"ocean_{n:03d}.nc"
         ex = {k: v[a0:a0 + cnt] for k, v in (extra or {}).items()}
-        roms.write_roms(pth, G if n == 0 else G2, ft[a0:a0 + cnt], U[a0:a0 + cnt], V[a0:a0 + cnt], extra=ex)
+        # with a separate grid file given, not even the first forcing file carries the true grid: a run that
+        # falls back to it (instead of the grid file) goes differently
+        Gn = G2 if (n > 0 or a["gridfile"]) else G
+        roms.write_roms(pth, Gn, ft[a0:a0 + cnt], U[a0:a0 + cnt], V[a0:a0 + cnt], extra=ex)
         files.append(pth)
         a0 += cnt
     pattern = str(files[0])
@@ -191,8 +196,11 @@ def render(a, F, d, spelling, out):
         }
         if ref:
             c["time_control"]["reference_time"] = ref
+        places = a.get("v1_places", "gg")
+        if places[0] == "f":
+            c["files"]["input_file"] = c["gridforce"].pop("input_file")
         if F["gridfile"]:
-            c["gridforce"]["gridfile"] = F["gridfile"]
+            c["gridforce" if places[1] == "g" else "files"]["gridfile"] = F["gridfile"]
         if a["sub"]:
             c["gridforce"]["subgrid"] = list(a["sub"])
         if a["temp"]:
@@ -324,6 +332,8 @@ def oracle(a) -> core.CaseResult:
         res.cls("user_grid_forcing_module")
     if not a["cont"] and a.get("stale_freq"):
         res.cls("discrete_with_leftover_frequency")
+    if a["gridfile"] and a.get("v1_places") in ("gf", "fg"):
+        res.cls("legacy_file_names_in_different_sections")
     with e2e.workdir() as d:
         F = build_files(d, a)
         outs = {}
